@@ -120,6 +120,41 @@ fn main() {
             }
             println!("{}", rep.to_json().pretty());
         }
+        "try" => {
+            // debugging aid: compile one file from disk: try <file> <target> [define=value ...]
+            exec::install_panic_hook();
+            let src = std::fs::read_to_string(&args[2]).expect("read");
+            let target = exec::Target::from_name(args.get(3).map(|s| s.as_str()).unwrap_or("HlslForDirectX"))
+                .expect("target");
+            let mut t = exec::TaskSpec::compile(0, "test.rssl", target);
+            t.buffer_address = target == exec::Target::Vk;
+            t.no_pipeline = args.iter().any(|a| a == "--no-pipeline");
+            for a in args.iter().skip(4) {
+                if let Some((n, v)) = a.split_once('=') {
+                    t.defines.push((n.to_string(), v.to_string()));
+                }
+            }
+            let fs = plan::snippet_fs(&src);
+            let ex = exec::ExecSpec::single((1, 2), plan::STACK_MAIN, t);
+            let res = exec::run_exec(&ex, std::slice::from_ref(&fs));
+            let r = &res.results[0][0];
+            println!("{}", r.text);
+            for p in &r.probes {
+                println!("probe {} len={} sig={:016x}", p.0, p.1, p.2);
+            }
+        }
+        "w2-kinds" => {
+            exec::install_panic_hook();
+            let (ok, notes) = w2::valid_kinds();
+            println!("valid: {ok:?}");
+            for n in notes {
+                println!("{n}");
+            }
+            if let Some(k) = args.get(2) {
+                let mut rng = prng::Rng::new(0xB10C).sub_n(k, 0);
+                println!("{}", w2::program(&[k.as_str()], &mut rng));
+            }
+        }
         "selfcheck" => match self_checks() {
             Ok(()) => println!("selfcheck ok"),
             Err(e) => {
